@@ -76,6 +76,8 @@ impl Generator {
                 // TUPLE2/TUPLE3 are protocol 2 opcodes; protocols 0 and 1 drop the
                 // surplus items with POP instead
                 self.emit_opcode(Pop);
+                #[cfg(pickle_fuzzer_verif)]
+                crate::verif::record(self, "collapse", Some(Pop));
             } else if stack_len >= 3 {
                 self.emit_opcode(Tuple3);
                 #[cfg(pickle_fuzzer_verif)]
